@@ -117,22 +117,27 @@ class AbsV:
 
 class AbsSeq:
     """abstract immutable sequence: its length (an Int term >= 0) and, optionally, an element function k -> value;
-    without one the elements are opaque"""
-    __slots__ = ("n", "elem")
+    without one the elements are opaque.  `offset`: position of element 0 in the sequence it was sliced from (index-term
+    bookkeeping for quantified facts about the elements)"""
+    __slots__ = ("n", "elem", "offset")
 
-    def __init__(self, n, elem=None):
-        self.n, self.elem = n, elem
+    def __init__(self, n, elem=None, offset=None):
+        self.n, self.elem, self.offset = n, elem, offset
 
 
 class SymDict:
-    """heap dict with symbolic integer keys: presence and value arrays (value -1 encodes None) plus its truthiness"""
-    __slots__ = ("present", "val", "nonempty")
+    """heap dict with symbolic integer keys: presence and value arrays (value -1 encodes None) plus its truthiness.
+    `shift`: the entry for key k lives at array index k + shift, so that re-keying `{k - c: v for k, v in d.items()}` is a
+    change of `shift` (no array is copied)"""
+    __slots__ = ("present", "val", "nonempty", "shift")
 
-    def __init__(self, present, val, nonempty):
+    def __init__(self, present, val, nonempty, shift=None):
+        import z3 as _z3
         self.present, self.val, self.nonempty = present, val, nonempty
+        self.shift = _z3.IntVal(0) if shift is None else shift
 
     def clone(self):
-        return SymDict(self.present, self.val, self.nonempty)
+        return SymDict(self.present, self.val, self.nonempty, self.shift)
 
 
 class SymAtts:
